@@ -156,6 +156,12 @@ def run_case(case, env):
     try:
         if case['t'] == 'user':
             return run_user(case, env, res, d)
+        if len(case['name']) % 2:
+            # process history: the same process has created and deleted other arrays before (class-level state such
+            # as the sets of protected names must not be affected by that)
+            res.count('obs.arrays_deleted_earlier_in_process')
+            env.darr.delete_raggedarray(env.darr.asraggedarray(d / 'gone_r', [[1, 2], [3]], accessmode='r+'))
+            env.darr.delete_array(env.darr.asarray(d / 'gone_a', [1, 2, 3], accessmode='r+'))
         a, p = make(env, d, case['kind'], case['md'], case.get('via'))
         res.dim('handle_path', case.get('via', 'plain'))
         fn = spell(case['name'], case['spelling'])
